@@ -353,6 +353,9 @@ func (d *differ) compare(s J, in, out any, path string, depth int, region string
 			d.add("changed", "array-became-"+jsonKind(out), "%s: array re-encoded as %s", path, short(out))
 			return
 		}
+		if it, isTuple := s["items"].(A); isTuple && len(x) != len(it) {
+			return // tuples of another arity than declared: partial support (documented), unspecified
+		}
 		if len(x) != len(y) {
 			d.add("changed", "array-length", "%s: %d items became %d", path, len(x), len(y))
 			return
